@@ -178,6 +178,27 @@ def rule_determine(ctx, vmod):
                       "a value within 1%% of %s (%s of base %s) can be analysed as %s on the path %s; expected (%s, %d, %d, %d)" % (
                           float(centre), label, base, bad[0].value if bad else None, [t for t in (bad[0].trace if bad else [])][-3:], base, d, rat[0], rat[1]))
 
+    # (c) values with two to four dots that carry rounding noise: the module's own add / subtract (and the track that
+    #     splits an entry over a bar line with them) hand back such a value a few ulps off the float dots() builds --
+    #     "adding and subtracting are inverse" as determine() sees it.  Window: 1e-12 relative (a thousand ulps).
+    for base in BASES:
+        for d in (2, 3, 4):
+            centre = o_dots(base, d)
+            x = FInt(centre * (1 - Fraction(1, 10 ** 12)), centre * (1 + Fraction(1, 10 ** 12)), "value")
+
+            def mk(ch):
+                it = Interp(ctx.repo, ch)
+                fint_builtin_wrap(it)
+                return it
+            try:
+                ps = explore(mk, lambda it: it.call_function(fi, [x], {}))
+            except CannotDecide as e:
+                raise AnalysisError("determine on the rounding neighbourhood of %s with %d dots: %s" % (base, d, e))
+            bad = [p for p in ps if not (p.kind == "return" and _class_ok(p.interp, p.value, base, d, (1, 1)))]
+            ctx.check(not bad, R, "noise[%s,dots%d]" % (base, d), fi.where(), "determine(value within 1e-12 (relative) of %s with %d dots = %r)" % (base, d, float(centre)),
+                      "a value a few ulps off %r -- e.g. subtract(add(v, w), w), or the remainder Track.from_chords carries over a bar line -- is analysed as %s, "
+                      "expected (%s, %d, 1, 1)" % (float(centre), bad[0].value if bad else None, base, d))
+
 
 def rule_termination(ctx, mmod):
     R = "R-C09-4"
